@@ -591,6 +591,17 @@ pub fn stun_verdict(m: &[u8], _ctx: &AppCtx) -> AppVerdict {
         match at {
             0x0003 => {
                 if al != 4 {
+                    if al >= 8 && al % 4 == 0 && i + 4 + al == body.len() && change_ports == 0 {
+                        // an over-long CHANGE-REQUEST as last attribute: whether it is honoured is not
+                        // settled, but nothing in its VALUE beyond the 4-byte flag word can ask for
+                        // another port
+                        let f = u32::from_be_bytes([body[i + 4], body[i + 5], body[i + 6], body[i + 7]]);
+                        let mut id = [0u8; 16];
+                        id.copy_from_slice(&m[4..20]);
+                        if f & 2 == 0 {
+                            return AppVerdict::IfAnswered(Req::Stun { id, change_port: false }, "stun-change-request-size".into());
+                        }
+                    }
                     return AppVerdict::Unspecified("stun-change-request-size".into());
                 }
                 // several CHANGE-REQUESTs: the response comes from the next port if ANY of them
